@@ -65,4 +65,101 @@ PROPS = {
         stubs=[TABLE_STUB, 'Uri::validate / Iri::validate stubbed by their table twins where a conversion calls the checked constructor'],
         assumptions=['bytes 0-127 identified with the chars U+0000-U+007F'],
     ),
+    'C05': dict(
+        technique='Kani/CBMC bounded model checking of each real setter from an arbitrary valid buffer with an arbitrary valid argument, result compared bytewise with an RFC 5.3 recomposition oracle',
+        level_text='For every valid buffer text and every valid new value (or removal) within the byte bounds CBMC proves that the buffer after set_scheme/set_authority/set_path/set_query/set_fragment is bytewise the RFC 3986 5.3 recomposition of the expected five components with exactly the three documented disambiguations (which implies read-back of the target and byte-identity of the other four) and that no call panics, overflows or indexes out of bounds; bounded.',
+        level_note=BMC_NOTE + ' Heap: buffers have concrete capacity 40 and Vec::resize is replaced by an in-capacity version that asserts new_len <= capacity.',
+        outside='buffers beyond 6-8 bytes and arguments beyond 2-4 bytes; reallocation of the buffer',
+        stubs=[TABLE_STUB, 'Vec::resize -> in-capacity version asserting new_len <= capacity (CAP 40)', 'mem::forget at the end of each harness (drop glue not modelled)'],
+        assumptions=['an empty path after an authority may be rendered empty or as "/" (both valid and unambiguous; the setters that touch path/authority write "/")',
+                     'oracle: harness/src/oracle.rs::{split_ref,recompose_with}'],
+    ),
+    'C04': dict(
+        technique='Kani/CBMC bounded model checking, inductive: one safe mutator call from an arbitrary valid buffer with an arbitrary valid argument, post-state re-validated against the grammar table; handle invariant for sequences',
+        level_text='Well-formedness is an inductive invariant: for every valid buffer text and every valid argument within the byte bounds, after one call of each setter, path edit (push/pop/clear/symbolic_push/symbolic_append/normalize) or authority edit the text is again accepted by the type grammar (table twin of the current automaton), is UTF-8, and no call panics, overflows or indexes out of bounds; the path/authority handle is shown to view exactly the fresh path()/authority() after each call, so sequences through one handle reduce to sequences of fresh handles (2-op same-handle harness as a direct cross-check in the thorough tier). In-place resolve is not covered (C06).',
+        level_note=BMC_NOTE + ' Heap: buffers have concrete capacity 40; Vec::resize is replaced by an in-capacity version that asserts new_len <= capacity (a buffer that starts empty gets one allocation of that capacity).',
+        outside='buffers beyond 5-8 bytes, arguments beyond 2-4 bytes, reallocation, spilled SmallVecs (>16 segments / >512 bytes), in-place resolve(), constructors default/from_scheme (covered only through C13/C05 harnesses)',
+        stubs=[TABLE_STUB, 'Vec::resize -> in-capacity version (asserts)', 'SmallVec::{push,extend_from_slice} -> pointer-loop versions asserting no spill; SmallVec::try_grow -> panic', 'mem::forget at harness end'],
+        assumptions=['one inductive step per mutator; the invariant is: text accepted by the type grammar'],
+    ),
+    'C07': dict(
+        technique='Kani/CBMC bounded model checking of the real PartialEq/Ord impls on pairs against a canonical-form oracle (decoded octets, dot-free segment lists)',
+        level_text='For all pairs of component values within the byte bounds (fully symbolic pairs) and for all (symbolic value x listed representative) pairs of paths, authorities and references, CBMC proves a == b exactly when the canonical forms are equal (which makes equality an equivalence relation on the explored set), symmetric, and that no comparison panics; bounded, and for composite types restricted to one symbolic operand against an explicit list of representatives.',
+        level_note=BMC_NOTE + ' Fully symbolic pairs of paths/URIs do not fit (two SmallVec normalisations); whole-URI equality is additionally justified structurally: it is the derived PartialEq of the parts() struct, whose fields are decided by C02 and by the component-level harnesses.',
+        outside='component pairs beyond 4-6 bytes each; composite pairs other than (value <= 4-6 bytes) x (listed representatives); triples (transitivity follows from agreement with an equivalence oracle only on the explored pairs)',
+        stubs=[TABLE_STUB, 'SmallVec::push -> pointer-loop version asserting no spill; SmallVec::try_grow -> panic'],
+        assumptions=['oracle: percent-decoded octets for user info/host/segment/query/fragment, literal scheme and port, RFC 5.2.4/Errata 4547 dot-free segment list'],
+    ),
+    'C08': dict(
+        technique='Kani/CBMC bounded model checking of the real Eq/Ord/Hash impls: ordering against the lexicographic order of canonical forms, hashing observed as the recorded write stream of a harness Hasher',
+        level_text='On the same pairs as C07: cmp equals the oracle order (so it is a total order consistent with equality), partial_cmp = Some(cmp), and equal values feed byte-identical data to any hasher. On single values up to the bound: a URI/IRI, the same text seen as a reference, its IRI-family views and its owned form compare equal, order Equal and produce identical hash streams, which is the Borrow contract hashed and ordered collections rely on; the std collections themselves are not executed.',
+        level_note=BMC_NOTE + ' HashMap/BTreeMap behaviour given the Borrow contract is trusted (hashbrown under CBMC is out of reach).',
+        outside='as C07; lookups in real collections',
+        stubs=[TABLE_STUB, 'SmallVec::push/try_grow as C07'],
+        assumptions=['hash observation: a Hasher that records write() calls (write_u8 etc. fall back to write)'],
+    ),
+    'C09': dict(
+        technique='Kani/CBMC bounded model checking of normalized_segments / normalized / in-place normalize against an RFC 3986 5.2.4 + Errata 4547 segment-stack oracle',
+        level_text='For every path within the byte bound CBMC proves the normalized-segment iterator yields exactly the oracle sequence (each item a sub-slice of the input, len() exact), normalized() renders it with the trailing slash of a final dot segment, in-place normalize() rewrites the path to it (both modulo the documented shield, both without removable dot segments left, absolute/relative preserved), and normalising an embedded path leaves scheme, authority, query and fragment byte-identical and the reference valid; bounded. Paths beyond the 16-segment / 512-byte inline buffers are NOT covered (spill asserted unreachable by the stubs).',
+        level_note=BMC_NOTE + ' Heap: buffers have concrete capacity 40; Vec::resize is replaced by an in-capacity version that asserts new_len <= capacity (a buffer that starts empty gets one allocation of that capacity).',
+        outside='paths beyond 5-6 bytes; more than 16 segments or 512 bytes (SmallVec spill paths are not verified)',
+        stubs=[TABLE_STUB, 'SmallVec::{push,extend_from_slice} -> pointer-loop versions asserting no spill; try_grow -> panic', 'Vec::resize / <[u8]>::to_vec -> in-capacity versions'],
+        assumptions=['a single leading "." in front of an empty or colon-bearing first segment is a shield; sequences are compared modulo it'],
+    ),
+    'C10': dict(
+        technique='Kani/CBMC bounded model checking of each path edit from an arbitrary valid reference / path buffer against a list-semantics oracle',
+        level_text='For every valid reference (or stand-alone path) and every valid segment argument within the byte bounds CBMC proves that push/pop/clear/symbolic_push/symbolic_append produce exactly the expected segment sequence (modulo the shield), keep the path absolute or relative, leave scheme, authority, query and fragment byte-identical, leave a valid text, never panic or overflow, and that the handle views exactly the new path afterwards; bounded, one edit per harness (sequences via the handle invariant, C04).',
+        level_note=BMC_NOTE + ' Heap: buffers have concrete capacity 40; Vec::resize is replaced by an in-capacity version that asserts new_len <= capacity (a buffer that starts empty gets one allocation of that capacity).',
+        outside='references beyond 5-8 bytes, segments beyond 2-3 bytes, appended paths beyond 4 bytes, reallocation',
+        stubs=[TABLE_STUB, 'Vec::resize -> in-capacity version (asserts)'],
+        assumptions=['oracle: harness/src/oracle.rs::{list_pop,symbolic_step,lists_equal_mod_shield}; a path that follows an authority is absolute even when empty'],
+    ),
+    'C11': dict(
+        technique='Kani/CBMC bounded model checking of each authority edit from an arbitrary valid reference with an authority, result compared bytewise with a section 3.2 recomposition; handle invariant',
+        level_text='For every valid reference with an authority and every valid new user info / host / port (or removal) within the byte bounds CBMC proves the buffer afterwards is bytewise the original with exactly that sub-component replaced, is valid, and that the handle views exactly the authority a fresh authority() returns; a two-op harness with symbolic op choice through ONE handle checks sequences directly (thorough tier); bounded.',
+        level_note=BMC_NOTE + ' Heap: buffers have concrete capacity 40; Vec::resize is replaced by an in-capacity version that asserts new_len <= capacity (a buffer that starts empty gets one allocation of that capacity).',
+        outside='references beyond 7-10 bytes, arguments beyond 2-4 bytes, sequences longer than two through one handle',
+        stubs=[TABLE_STUB, 'Vec::resize -> in-capacity version (asserts)'],
+        assumptions=['oracle: harness/src/oracle.rs::split_auth + recomposition'],
+    ),
+    'C14': dict(
+        technique='Kani/CBMC bounded model checking of every generated route out (views, owned conversions, Display, serde Serialize through a recording Serializer) and of text comparison; routes in shared with the C01 glue harnesses',
+        level_text='For every valid value within the byte bound CBMC proves the borrowed views are the very input bytes (pointer and length), owned conversions keep the buffer or an equal copy, Display and serde serialisation emit exactly the text, and comparing with a second arbitrary string is byte equality; every route in (new, TryFrom, FromStr, from_vec, serde visitors fed str/bytes/String/Vec) accepts exactly what validate accepts and preserves the text; bounded. Debug is not claimed (it quotes/escapes by design).',
+        level_note=BMC_NOTE + ' Representative types per generated template (UriRef, IriRef, uri::Segment, uri::Authority, iri::Query); the templates are one proc-macro expansion applied to all 20 types.',
+        outside='texts beyond 5-8 bytes; Debug; serde data formats other than handing the visitor a str/bytes/String/Vec<u8>',
+        stubs=[TABLE_STUB, '<[u8]>::to_vec -> in-capacity version', 'big-DFA validate -> table twin / arbitrary verdict in the glue harnesses'],
+        assumptions=['serde front end: harness/src/serde_drv.rs (visitor entry points visit_borrowed_str/str/string/borrowed_bytes/bytes/byte_buf)'],
+    ),
+    'C16': dict(
+        technique='Kani/CBMC bounded model checking of base() against a last-slash oracle and of suffix() against a normalised-prefix oracle (value symbolic x listed prefixes)',
+        level_text='base(): for every valid reference within the byte bound the result is exactly the sub-slice up to and including the last slash of the path (or up to the path start), valid for the same kind and without query/fragment. suffix(): for (value <= 4-5 bytes) x (listed prefixes), Some exactly when both are absolute or both relative and the prefix normalised segments lead the value ones (decoded comparison), the result being the remaining segments; Uri::suffix additionally requires equal scheme and authority and returns the value own query/fragment (pointer identity); bounded.',
+        level_note=BMC_NOTE,
+        outside='base() beyond 9-10 bytes; suffix() beyond (value <= 5) x (listed prefixes); the reconstruction law only through the oracle list',
+        stubs=[TABLE_STUB, 'Vec::resize -> in-capacity version', 'SmallVec::push/try_grow as C09'],
+        assumptions=['prefix representatives: "", "/", "a", "/a", "a/b", "/a/..", "%61", ".."'],
+    ),
+    'C18': dict(
+        technique='Kani/CBMC bounded model checking of the real DataUrl / DataUrlBuf constructors and accessors against a shape oracle (Uri::validate stubbed by its table twin)',
+        level_text='For every byte string within the bound CBMC proves the borrowed and owned constructors agree and accept exactly the valid URIs of the shape data:<media chars>[;base64],<data>; for accepted values the re-scanning borrowed accessors, the offset-based owned accessors and parts() all equal the oracle split (pointer and length), reassemble the text, the borrowed loop{} scanners terminate (unwinding assertions), and decoded_data of a non-base64 URL is a borrowed view of the data bytes. The base64 decoding itself (base64 crate engine) is NOT decided: only that the flagged branch is taken exactly when ;base64 is present.',
+        level_note=BMC_NOTE,
+        outside='texts beyond 14-18 bytes; the base64 decoding performed by the base64 crate',
+        stubs=['Uri::validate -> table twin of the same automaton (extracted per run)'],
+        assumptions=['media type characters as listed in data.rs::is_media_type_char (the oracle repeats the list)'],
+    ),
+    'C19': dict(
+        technique='Kani/CBMC bounded model checking of as_pct_str().bytes() against a percent-decoding oracle for the ten component types, and of chars()/len()/== str on well-formed octets',
+        level_text='For every valid component within the byte bound CBMC proves the view is the component text and its octet iterator yields exactly the bytes with each %XX replaced by that octet (no UTF-8 involved, every octet pattern incl. FF, C0 80, ED A0 80). For chars(), len() and comparison with plain text it proves totality and agreement with the UTF-8 text of the decoded octets on the inputs whose decoded octets are well-formed UTF-8. The ill-formed / overlong class is a KNOWN FINDING (pct-str 2.0 unwraps the UTF-8 decoding; utf8-decode accepts overlong forms) and is excluded from the solver query while the finding is open; decode() (String building) is not run.',
+        level_note=BMC_NOTE + ' The panic and the overlong acceptance live in the pct-str / utf8-decode dependencies, reached through iref PctStr::new_unchecked view.',
+        outside='components beyond 5-8 bytes; PctStr::decode / into_pct_string (heap building); values whose decoded octets are not well-formed UTF-8 for the chars-based operations (known finding)',
+        stubs=['big-DFA Host: table twin as validity test'],
+        assumptions=['known finding classes are compiled in as assume(!class) only while the finding is open and its witness still fails natively'],
+    ),
+    'C20': dict(
+        technique='Kani/CBMC bounded model checking with the allocator entry points (alloc, alloc_zeroed, realloc) stubbed by a panic: no path through borrowed parsing and every read-only accessor reaches the allocator; pointer-range assertions for sub-slice/order/non-overlap',
+        level_text='For every input within the byte bound CBMC proves that no execution path through the borrowed constructors (real generated validate for the small types, table twin for UriRef) and through parts/scheme/authority(+parts)/path/query/fragment/base/segments/first/last/file_name/directory/parent/parent_or_empty reaches the global allocator (a detector twin that allocates must FAIL), that the parsed value occupies exactly the caller input, and (C02/C03/C12/C16 harnesses) that everything returned is a sub-slice of the input in the RFC order or a documented constant; bounded. Inputs larger than the inline buffers are NOT covered: an accessor that used a SmallVec would not allocate at these sizes.',
+        level_note=BMC_NOTE,
+        outside='inputs beyond 6-12 bytes; in particular inputs larger than any inline buffer (a SmallVec-based accessor would be invisible here); normalized_segments() is not an allocation-free accessor and is not in the list',
+        stubs=[TABLE_STUB, 'std::alloc::{alloc,alloc_zeroed,realloc} -> panic("heap allocation")', 'UriRef::validate -> table twin'],
+        assumptions=['native replay uses a counting global allocator instead of the stubs'],
+    ),
 }
